@@ -444,3 +444,44 @@ package types
 //@   modifies d.lr.N, d.buf, d.err, *s
 //@   invariant loop#1 @budget 0 <= d.lr.N && d.lr.N <= old(d.lr.N)
 //@   ensures @budget 0 <= d.lr.N && d.lr.N <= old(d.lr.N)
+
+// ------------------------------------------------------------ types.go: text forms of fixed-size identifiers (C20, reduced)
+// "any identifier of the wrong length ... is rejected rather than silently accepted": a parser
+// returns nil only for an input of exactly the right length, and never panics.
+
+//@ func unmarshalHex
+//@   prop C20
+//@   modifies dst
+//@   ensures @accepts-only-exact-length result == nil ==> len(data) == 2 * len(dst)
+
+//@ func (*Hash256).UnmarshalText
+//@   prop C20
+//@   modifies h
+//@   ensures @accepts-only-exact-length result == nil ==> len(b) == 64
+//@ func (*BlockID).UnmarshalText
+//@   prop C20
+//@   modifies bid
+//@   ensures @accepts-only-exact-length result == nil ==> len(b) == 64
+//@ func (*TransactionID).UnmarshalText
+//@   prop C20
+//@   modifies tid
+//@   ensures @accepts-only-exact-length result == nil ==> len(b) == 64
+//@ func (*FileContractID).UnmarshalText
+//@   prop C20
+//@   modifies fcid
+//@   ensures @accepts-only-exact-length result == nil ==> len(b) == 64
+//@ func (*Signature).UnmarshalText
+//@   prop C20
+//@   modifies sig
+//@   ensures @accepts-only-exact-length result == nil ==> len(b) == 128
+//@ func (*PublicKey).UnmarshalText
+//@   prop C20
+//@   modifies pk
+//@   ensures @accepts-only-exact-length result == nil ==> len(b) == 8 + 64
+//@ func (*ChainIndex).UnmarshalText
+//@   prop C20
+//@   modifies ci
+//@ func (*Address).UnmarshalText
+//@   prop C20
+//@   modifies a
+//@   ensures @accepts-only-exact-length result == nil ==> len(b) == 76
